@@ -17,6 +17,25 @@ T = 'fsic.tools'
 FLAGS = ['status', 'iterations', 'include_internal']
 
 
+def _fold_type_tests(e: ast.AST) -> ast.AST:
+    """`int is str` and the like (a table entry compared with a type name) decided, and the conditional folded."""
+    import copy as _copy
+    TYPES = {'int', 'str', 'float', 'bool', 'bytes', 'list', 'dict', 'tuple'}
+
+    class T(ast.NodeTransformer):
+        def visit_IfExp(self, node):
+            self.generic_visit(node)
+            t = node.test
+            if isinstance(t, ast.Compare) and len(t.ops) == 1 and isinstance(t.left, ast.Name) and isinstance(t.comparators[0], ast.Name) \
+                    and t.left.id in TYPES and t.comparators[0].id in TYPES and isinstance(t.ops[0], (ast.Is, ast.IsNot, ast.Eq, ast.NotEq)):
+                same = t.left.id == t.comparators[0].id
+                val = same if isinstance(t.ops[0], (ast.Is, ast.Eq)) else (not same)
+                return node.body if val else node.orelse
+            return node
+
+    return ast.fix_missing_locations(T().visit(_copy.deepcopy(e)))
+
+
 def r1_optional_fields(R) -> None:
     ci = R.repo.cls('fsic.parser.Symbol')
     optional: List[str] = []
@@ -30,63 +49,114 @@ def r1_optional_fields(R) -> None:
     q = f'{T}.dataframe_to_symbols'
     fi = R.repo.func(q)
     R.saw_function(fi)
+    # what each Optional field of a row is replaced by, as one gated value per field: constant keys, keys that run over a
+    # tuple of names, keys (and a second loop variable) that run over a table `{name: <how to restore>}`; helpers read through
+    from fsa.gated import canon, leaves
+    from fsa.summ import _subst
+    f = Fn(R, q)
+    se = f.symexec()
+    row = None
+    per_field: Dict[str, ast.AST] = {}
+    guards_of_field: Dict[str, list] = {}
+    tables: Dict[str, Dict[str, ast.AST]] = {}
+    for n in f.cfg.nodes:
+        a_ = n.ast
+        if n.kind == 'stmt' and isinstance(a_, (ast.Assign, ast.AnnAssign)) and isinstance(getattr(a_, 'value', None), ast.Dict) and all(isinstance(k_, ast.Constant) for k_ in a_.value.keys):
+            tables[text(a_.targets[0] if isinstance(a_, ast.Assign) else a_.target)] = {k_.value: v_ for k_, v_ in zip(a_.value.keys, a_.value.values)}
+    for n in f.cfg.nodes:
+        a_ = n.ast
+        if not (n.kind == 'stmt' and isinstance(a_, ast.Assign) and isinstance(a_.targets[0], ast.Subscript) and isinstance(a_.targets[0].value, ast.Name)):
+            continue
+        k = a_.targets[0].slice
+        rv = text(a_.targets[0].value)
+        try:
+            v = canon(se.value(a_, a_.value))
+        except Exception:
+            continue
+        binds = []
+        if isinstance(k, ast.Constant) and isinstance(k.value, str):
+            binds = [(k.value, {})]
+        elif isinstance(k, ast.Name) and n.loops:
+            lp = f.cfg.nodes[n.loops[-1]]
+            it, tg = lp.ast.iter, lp.ast.target
+            if isinstance(it, (ast.Tuple, ast.List)) and all(isinstance(e_, ast.Constant) for e_ in it.elts) and isinstance(tg, ast.Name) and tg.id == k.id:
+                binds = [(e_.value, {k.id: e_}) for e_ in it.elts]
+            elif method_call(it, 'items') and text(it.func.value) in tables and isinstance(tg, ast.Tuple) and len(tg.elts) == 2 and text(tg.elts[0]) == k.id:
+                binds = [(c_, {k.id: ast.Constant(value=c_), text(tg.elts[1]): e_}) for c_, e_ in tables[text(it.func.value)].items()]
+        # the store itself may stand under tests (`if not isinstance(entry[key], str): entry[key] = None`): those facts
+        # belong to every value it stores
+        inner = n.loops[-1] if n.loops else None
+        gfacts = [(a2, tr2) for (a2, tr2, tn2) in f.guard_atoms(n.id) if inner is not None and inner in tn2.loops]
+        for (fld, env) in binds:
+            if fld in fields:
+                row = row or rv
+                per_field[fld] = canon(_fold_type_tests(_subst(v, env) if env else v))
+                guards_of_field[fld] = [((_subst(a2, env) if env else a2), tr2) for (a2, tr2) in gfacts]
+
+    def own(e: ast.AST, fld: str) -> bool:
+        # the row's own entry for the field, however the row is written at that point (`entry`, the evaluator's `entry@<line>`,
+        # `dict(row)` with the items stored so far)
+        return isinstance(e, ast.Subscript) and is_const(e.slice, fld)
+
+    def missing_test(a_: ast.AST, tr: bool, fld: str) -> Optional[str]:
+        """Is (a_, tr) a test that the field's own value is missing?  'none' | 'nan' | 'notstr'."""
+        if isinstance(a_, ast.Compare) and len(a_.ops) == 1 and isinstance(a_.ops[0], ast.Is) and is_const(a_.comparators[0], None) and own(a_.left, fld) and tr:
+            return 'none'
+        if is_call(a_, 'np.isnan', 'numpy.isnan', 'math.isnan', 'pd.isna', 'pandas.isna', 'pd.isnull') and a_.args and own(a_.args[0], fld) and tr:
+            return 'nan'
+        if is_call(a_, 'isinstance') and len(a_.args) == 2 and own(a_.args[0], fld) and text(a_.args[1]) == 'str' and not tr:
+            return 'notstr'
+        if isinstance(a_, ast.BoolOp) and isinstance(a_.op, ast.Or) and tr:
+            kinds = [missing_test(v_, True, fld) for v_ in a_.values]
+            if all(kinds):
+                return '+'.join(kinds)
+        return None
+
     restored: Set[str] = set()
-    for n in ast.walk(fi.node):
-        # entry['x'] = convert_to_int_or_none(entry['x'])
-        if isinstance(n, ast.Assign) and isinstance(n.targets[0], ast.Subscript) and text(n.targets[0].value) == 'entry':
-            k = n.targets[0].slice
-            if isinstance(k, ast.Constant) and is_call(n.value, 'convert_to_int_or_none'):
-                restored.add(k.value)
-            if isinstance(k, ast.Constant) and is_const(n.value, None):
-                restored.add(k.value)
-        # for key in (...): if <not a value>: entry[key] = None
-        if isinstance(n, ast.For) and isinstance(n.iter, (ast.Tuple, ast.List)) and all(isinstance(e, ast.Constant) for e in n.iter.elts):
-            var = text(n.target)
-            for m in ast.walk(n):
-                if isinstance(m, ast.Assign) and isinstance(m.targets[0], ast.Subscript) and text(m.targets[0].value) == 'entry' \
-                        and text(m.targets[0].slice) == var and is_const(m.value, None):
-                    restored |= {e.value for e in n.iter.elts}
-    # convert_to_int_or_none really maps NaN to None
-    conv = R.repo.functions.get(q + '.<locals>.convert_to_int_or_none')
-    conv_ok = conv is not None and any(isinstance(x, ast.Return) and is_const(x.value, None) for x in ast.walk(conv.node)) and 'isnan' in text(conv.node)
-    # the NaN test must not be applied to None (an all-missing column holds None, and np.isnan(None) raises TypeError)
-    if conv is not None:
-        for x in ast.walk(conv.node):
-            if is_call(x, 'np.isnan', 'numpy.isnan', 'math.isnan') and x.args:
-                arg = text(x.args[0])
+    for fld, v in per_field.items():
+        for (facts, leaf) in leaves(v):
+            if not is_const(leaf, None):
+                continue
+            facts = list(guards_of_field.get(fld, [])) + list(facts)
+            kinds = [missing_test(a_, tr, fld) for (a_, tr) in facts]
+            about_other = [(text(a_), tr) for (a_, tr), k_ in zip(facts, kinds) if k_ is None and not any(own(x, fld) for x in ast.walk(a_))]
+            if fld in optional:
+                R.check(not about_other, q, f'none-by-value:{fld}:' + ';'.join(t_ for t_, _ in about_other)[:60], f'{row}[{fld!r}] becomes None only when its own value is missing',
+                        f'`{fld}` is set to None under {about_other}: the field is cleared because of something other than its own value (e.g. the symbol type), so a symbol '
+                        f'that carries it (a verbatim block has equation and code) loses it', where=fi.where)
+            if any(kinds) and not about_other:
+                allk = '+'.join(k_ for k_ in kinds if k_)
+                if fld in ('lags', 'leads'):
+                    if 'nan' in allk:
+                        restored.add(fld)
+                else:
+                    restored.add(fld)
+        # the NaN test must not be applied to None (an all-missing column holds None, and np.isnan(None) raises TypeError)
+        for x in ast.walk(v):
+            if is_call(x, 'np.isnan', 'numpy.isnan', 'math.isnan') and x.args and own(x.args[0], fld):
                 guarded = False
-                for t in ast.walk(conv.node):
-                    if isinstance(t, ast.BoolOp) and isinstance(t.op, ast.Or) and any(v is x for v in t.values):
-                        idx = [i for i, v in enumerate(t.values) if v is x][0]
-                        guarded = any(text(v) == f'{arg} is None' for v in t.values[:idx])
-                    if isinstance(t, ast.If) and text(t.test) in (f'{arg} is None',) and any(isinstance(y, ast.Return) for y in t.body):
-                        guarded = True
-                R.check(guarded, conv.qualname, 'isnan-none-guard', 'a missing value that arrives as None is handled before the NaN test',
-                        f'`{text(x)}` is applied without a preceding `{arg} is None` test: a table whose lags/leads are all missing (verbatim-only script) raises TypeError',
-                        where=conv.where)
+                for t in ast.walk(v):
+                    if isinstance(t, ast.BoolOp) and isinstance(t.op, ast.Or) and any(v_ is x for v_ in t.values):
+                        idx = [i for i, v_ in enumerate(t.values) if v_ is x][0]
+                        guarded = any(missing_test(v_, True, fld) == 'none' for v_ in t.values[:idx])
+                for (facts, leaf) in leaves(v):
+                    seen_none = False
+                    for (a_, tr) in facts:
+                        if missing_test(a_, not tr, fld) == 'none' and not tr:
+                            seen_none = True
+                        if a_ is x and seen_none:
+                            guarded = True
+                R.check(guarded, q, f'isnan-none-guard:{fld}', 'a missing value that arrives as None is handled before the NaN test',
+                        f'`{text(x)}` is applied without a preceding `{text(x.args[0])} is None` test: a table whose {fld} are all missing (verbatim-only script) raises TypeError',
+                        where=fi.where)
     for fld in optional:
-        ok = fld in restored and (conv_ok or fld not in ('lags', 'leads'))
-        R.check(ok, q, f'optional-restored:{fld}', f'Symbol.{fld} (Optional): a missing value comes back as None',
-                f'Symbol.{fld} is Optional but dataframe_to_symbols has no not-a-value -> None conversion for it: pandas stores None as NaN, '
-                f'so the round trip returns {fld}=nan', where=fi.where)
-    # a field is set to None only because *its own value* is missing, never because of the symbol's type
-    for n in ast.walk(fi.node):
-        if isinstance(n, ast.Assign) and isinstance(n.targets[0], ast.Subscript) and text(n.targets[0].value) == 'entry' and is_const(n.value, None):
-            key = text(n.targets[0].slice)
-            # enclosing if tests
-            par = {}
-            for x in ast.walk(fi.node):
-                for c in ast.iter_child_nodes(x):
-                    par[id(c)] = x
-            cur, conds = par.get(id(n)), []
-            while cur is not None:
-                if isinstance(cur, ast.If):
-                    conds.append(text(cur.test))
-                cur = par.get(id(cur))
-            own = any(f'entry[{key}]' in c for c in conds)
-            R.check(own, q, f'none-by-value:{key}:' + ';'.join(conds)[:60], f'entry[{key}] becomes None only when its own value is missing',
-                    f'`{text(n)}` under {conds}: the field is cleared because of something other than its own value (e.g. the symbol type), so a symbol that '
-                    f'carries it (a verbatim block has equation and code) loses it', where=fi.where)
+        if fld not in per_field:
+            R.violation(q, f'optional-restored:{fld}', f'Symbol.{fld} is Optional but dataframe_to_symbols has no not-a-value -> None conversion for it: pandas stores None as NaN, '
+                        f'so the round trip returns {fld}=nan', where=fi.where)
+            continue
+        R.check(fld in restored, q, f'optional-restored:{fld}', f'Symbol.{fld} (Optional): a missing value comes back as None',
+                f'Symbol.{fld} is Optional but what dataframe_to_symbols stores for it (`{text(per_field[fld])[:70]}`) does not turn a missing value (NaN'
+                f'{" / a non-string" if fld not in ("lags", "leads") else ""}) into None: the round trip returns {fld}=nan', where=fi.where)
     # type is restored through the enum
     ok = any(isinstance(n, ast.Assign) and text(n.targets[0]) == "entry['type']" and is_call(n.value, 'Type') for n in ast.walk(fi.node))
     R.check(ok, q, 'type-restored', 'the type column is converted back to the Type enum', "`entry['type'] = Type(entry['type'])` not found", where=fi.where)
@@ -112,8 +182,10 @@ def r2_model_to_dataframe(R) -> None:
     if not R.require(q, len(rets), 'return of the frame', fi=f.fi, pred=lambda x: isinstance(x, ast.Return)):
         return
     R.check(len(rets) == 1, q, 'returns-frame', 'the frame is returned', 'model_to_dataframe has several returns', where=f.fi.where)
-    se = f.symexec()
-    v = canon(se.value(rets[0].ast, rets[0].ast.value))
+    from fsa.gated import under_defaults
+    se = f.symexec(deep=True)
+    # options beyond the documented ones (model, include_internal, status, iterations) are read at their defaults
+    v = canon(under_defaults(canon(se.value(rets[0].ast, rets[0].ast.value)), f.fi.node, keep=(model, 'include_internal', 'status', 'iterations')))
     base, items = item_layers(v)
     if not is_call(base, 'DataFrame', 'pandas.DataFrame', 'pd.DataFrame'):
         raise Unsupported(f'{q}: the returned object starts as `{text(base)[:70]}`, not a DataFrame(...)')
@@ -139,6 +211,8 @@ def r2_model_to_dataframe(R) -> None:
             plain = ne
         else:
             filt = ne
+        if plain is not None and is_call(plain, 'list') and len(plain.args) == 1:
+            plain = plain.args[0]     # a copy of the list of names is the same columns
         R.check(plain is not None and text(plain) == f'{model}.names', q, 'names-source', 'columns follow model.names',
                 f'with include_internal the columns are `{text(plain)[:60] if plain is not None else "<filtered anyway>"}`, not {model}.names', where=f.fi.where)
         okf = False
@@ -277,7 +351,13 @@ def r4_from_dataframe(R) -> None:
     c = rets[0].ast.value
     ok = is_call(c, 'cls') and c.args and text(c.args[0]) == 'index' and has_star_args(c, 'args') and has_star_kwargs(c, 'kwargs')
     R.check(ok, q, 'ctor-call:' + text(c)[:60], 'the model is built from the index and the columns', f'`{text(c)[:70]}`', where=f.where(rets[0]))
-    dcs = [k.value for k in c.keywords if k.arg is None and isinstance(k.value, ast.DictComp)] if isinstance(c, ast.Call) else []
+    # the columns: a dict comprehension in the call, or a local that holds one (read through)
+    dcs = []
+    for k in (c.keywords if isinstance(c, ast.Call) else []):
+        if k.arg is None:
+            dc_ = k.value if isinstance(k.value, ast.DictComp) else (f.as_dictcomp(rets[0].id, k.value) if isinstance(k.value, ast.Name) and k.value.id != 'kwargs' else None)
+            if isinstance(dc_, ast.DictComp):
+                dcs.append(dc_)
     ok = len(dcs) == 1 and text(dcs[0].generators[0].iter) == 'data.items()' and text(dcs[0].value).endswith('.values') and text(dcs[0].key) == text(dcs[0].generators[0].target.elts[0])
     R.check(ok, q, 'columns', "each column's values are passed under the column name", 'columns are not passed as {name: column.values}', where=f.where(rets[0]))
     # the frame is used as given (no re-ordering / re-binding before the span and the values are taken)
